@@ -31,7 +31,7 @@ EXPECT_COVERS = ['serial-stale-reply-after-timeout', 'serial-next-call-served', 
 def jobs(tier):
   n = 2 if tier == 'quick' else 3
   return [dict(name='T-serial-reuse-n%d' % n, sc='serial', n=n, cost=2000, shards=16, shard_depth=4),
-          dict(name='M-concurrent-n%d' % n, sc='mux', n=n, cost=2000, shards=16, shard_depth=4),
+          dict(name='M-concurrent-n%d' % n, sc='mux', n=n, cost=2000, shards=8 if n == 2 else 32, shard_depth=3 if n == 2 else 5),
           dict(name='M-timeout-reuse', sc='muxreuse', cost=500, shards=4, shard_depth=2)]
 
 
@@ -91,7 +91,7 @@ def make_body(job):
       g = fresh_real('followup_at', 0, 10)
       gevent.sleep(g)
       issued.append('late'); ars.append(('late', c.hi_async('late')))
-      gevent.sleep(30)
+      gevent.sleep(18)
       judge_values(ars, script, issued)
       done = [stacks.events(ar)[0][0] for a, ar in ars[:n] if stacks.events(ar) and stacks.events(ar)[0][1] == 'value']
       if len(done) >= 2 and bool(done[0] > done[1]): cover('mux-out-of-order')
